@@ -38,6 +38,10 @@ FLIGHTS = [
     ('AA3', 'AA4', 6000, 300, 'J', '77W', [1, 2], 0),
     ('AA4', 'AA1', 7000, 0, 'C', '320', [13], 720),
 ]
+# Query.tla ValidityIsNotACondition: the validity period of a flight row is in LOCAL calendar dates of its origin; for the
+# flight that leaves at 23:59 UTC (east of Greenwich: already the next day there) and the one that leaves at 00:00 UTC (west
+# of it: still the day before) the period does not contain the UTC dates of all their departures
+VALIDITY = {3: ('2019-03-05', '2019-03-18'), 4: ('2019-03-04', '2019-03-05')}
 D0 = dt.date(2019, 3, 4)
 T0 = int(dt.datetime(2019, 3, 4, tzinfo=dt.timezone.utc).timestamp())
 DAY0 = (D0 - dt.date(1970, 1, 1)).days
@@ -67,7 +71,7 @@ def database():
         od = min(o, dd) + max(o, dd)
         cur.execute(
             'INSERT INTO flights (id, carrier, flight_number, origin, destination, day_of_week_mask, departure_time, arrival_time, arrival_day_offset, service_type, aircraft_type, engine_type, distance, seat_capacity, effective_from, effective_to, number_of_flights, od_pair) VALUES (?,?,?,?,?,?,?,?,?,?,?,?,?,?,?,?,?,?)',
-            (100 + fi, 'XX', str(fi), aid[o], aid[dd], 127, minute, minute, 0, svc, ac, '', float(dist) * DIST_UNIT, seats, '2019-03-04', '2019-03-17', len(days), od),
+            (100 + fi, 'XX', str(fi), aid[o], aid[dd], 127, minute, minute, 0, svc, ac, '', float(dist) * DIST_UNIT, seats, *VALIDITY.get(fi, ('2019-03-04', '2019-03-17')), len(days), od),
         )
         for day in days:
             rows.append((fi, day, T0 + (day * 1440 + minute) * 60))
